@@ -80,6 +80,7 @@ func (fr *frame) nodeBytes(n *vnode) value {
 func (fr *frame) newFile(n *vnode, name string, write bool) value {
 	e := fr.i.ctx.env
 	f := &vfile{node: n, name: name, fd: e.nextFd, write: write}
+	e.fdPaths[f.fd] = n.path
 	e.nextFd++
 	var cell value = native{f}
 	return &cell
@@ -194,6 +195,10 @@ func init() {
 		f.closed = true
 		e := fr.i.ctx.env
 		e.events = append(e.events, sinkEvent{Kind: "close", Path: f.name})
+		if p, ok := e.lockFd[f.fd]; ok {
+			delete(e.locks, p)
+			delete(e.lockFd, f.fd)
+		}
 		return iface{}
 	}
 	intrinsics["(*os.File).Name"] = func(fr *frame, args []value) value {
@@ -299,7 +304,11 @@ func init() {
 		panic(engineExit{int(fr.concreteInt(args[0]))})
 	}
 	intrinsics["os.UserHomeDir"] = func(fr *frame, args []value) value {
-		return tuple{fr.i.ctx.env.home, iface{}}
+		e := fr.i.ctx.env
+		if h, ok := e.envv["HOME"]; ok && h != "" {
+			return tuple{h, iface{}}
+		}
+		return tuple{e.home, iface{}}
 	}
 	intrinsics["os.Getwd"] = func(fr *frame, args []value) value {
 		return tuple{fr.i.ctx.env.cwd, iface{}}
@@ -347,13 +356,20 @@ func init() {
 		e := fr.i.ctx.env
 		fd := int(fr.concreteInt(args[0]))
 		how := int(fr.concreteInt(args[1]))
-		e.events = append(e.events, sinkEvent{Kind: "flock", Path: fmt.Sprintf("fd%d", fd), Data: how})
-		if h, ok := e.hooks["flock"]; ok {
-			r := call(fr.i, fr, 0, h, []value{fd, how})
-			if fr.branch(r) {
-				return iface{}
-			}
+		p := e.fdPaths[fd]
+		e.events = append(e.events, sinkEvent{Kind: "flock", Path: p, Data: how})
+		ok := true
+		if h, found := e.hooks["flock"]; found {
+			ok = fr.branch(call(fr.i, fr, 0, h, []value{p, how}))
+		} else if e.locks[p] {
+			ok = false
+		}
+		if !ok {
 			return fr.mkErr("resource temporarily unavailable")
+		}
+		if how&2 != 0 && p != "" { // LOCK_EX
+			e.locks[p] = true
+			e.lockFd[fd] = p
 		}
 		return iface{}
 	}
